@@ -390,7 +390,13 @@ func (np *netPlan) onWrite(n *simwire.Net, f *simwire.Frame) {
 		var our [6]byte
 		copy(our[:], p.ARP.SHA)
 		body := pktcodec.EncodeARP(&pktcodec.ARP{HType: 1, PType: pktcodec.EtherTypeIPv4, HLen: 6, PLen: 4, Op: 2, SHA: mac[:], SPA: t[:], THA: p.ARP.SHA, TPA: p.ARP.SPA})
-		reply = append(pktcodec.EthHeader(our, mac, pktcodec.EtherTypeARP), body...)
+		ethSrc := mac
+		if ip%5 == 3 {
+			// the reply is relayed (proxy ARP, NLB cluster address, bridge): the Ethernet source is
+			// not the sender hardware address inside the ARP body, which is the one that counts
+			ethSrc = [6]byte{0x02, 0x77, byte(ip >> 8), byte(ip), 0x5a, 0xa5}
+		}
+		reply = append(pktcodec.EthHeader(our, ethSrc, pktcodec.EtherTypeARP), body...)
 		tag = "arp-reply"
 	case p.IP != nil:
 		ip := pktcodec.U32(p.IP.Dst)
